@@ -285,6 +285,7 @@ def element_update(body, site):
     if rv.get("k") != "agg" or rv.get("adt") != "element::Element":
         return None
     changed, kept = {}, 0
+    bases = set()
     for f, o in zip(rv["fields"], rv["ops"]):
         p = mir.op_place(o)
         if p is not None:
@@ -292,6 +293,48 @@ def element_update(body, site):
             last = cp["p"][-1] if cp["p"] else None
             if isinstance(last, dict) and last.get("adt") == "element::Element" and last.get("f") == f:
                 kept += 1
+                if len(cp["p"]) == 1:
+                    bases.add(cp["l"])
                 continue
         changed[f] = o
-    return changed if kept else None
+    if not kept:
+        return None
+    # `Element { f: v, ..Element { .. } }` with the base built by a plain constructor in this very body is itself a
+    # constructor: the kept fields resolve to the base's constructor values
+    if len(bases) == 1:
+        l = next(iter(bases))
+        for _ in range(6):
+            ds = body.defs().get(l, [])
+            whole = [d for d in ds if d.si is not None and d.node["k"] == "assign" and not d.node["place"]["p"]]
+            if len(ds) != 1 or len(whole) != 1:
+                break
+            rv0 = whole[0].node["rv"]
+            if rv0.get("k") == "agg" and rv0.get("adt") == "element::Element":
+                if element_update(body, whole[0]) is None:
+                    return None
+                break
+            p0 = mir.op_place(rv0["op"]) if rv0.get("k") == "use" else None
+            if p0 is None or p0["p"]:
+                break
+            l = p0["l"]
+    return changed
+
+
+def update_base(t):
+    """term-level view of `Element { f: v, ..x }`: (term of x, set of changed field names) or None"""
+    from ..mir import strip
+    t = strip(t)
+    if t[0] != "agg" or t[1] != "element::Element":
+        return None
+    base, changed = None, set()
+    for f, v in t[3].items():
+        sv = strip(v)
+        fs = [e for e in sv[2] if e != "*"] if sv[0] == "proj" else []
+        if fs and fs[-1][0] == "f" and fs[-1][1] == "element::Element" and fs[-1][3] == f and len(fs) == 1:
+            if base is None:
+                base = strip(sv[1])
+            elif strip(sv[1]) != base:
+                return None
+        else:
+            changed.add(f)
+    return (base, changed) if base is not None else None
